@@ -341,6 +341,8 @@ class Checker(CommandMixin):
             if not cm.alive and not failed:
                 break
             self.command(cm, sub, err)
+            # what "my nameplate" / "my mailbox" mean on this connection from now on
+            ev.notes["cm"] = [cm.np, cm.named]
 
     def _acknowledged_effects_stored(self, ev, subs, msgs):
         """C09: when a non-ack frame goes out, what an independent reader finds
